@@ -16,8 +16,11 @@ open ScpiVerif ScpiVerif.Lexer ScpiVerif.Spec ScpiVerif.Props.C08 ScpiVerif.Pars
 
 /-! ## regular-expression tokens -/
 
-/-- no word of `r` contains a line feed -/
-def NlFree (r : Re) : Prop := Params.reAll (· ≠ 10) r
+/-- no word of `r` contains a line feed or a carriage return -/
+def NlFree (r : Re) : Prop := Params.reAll (fun b => b ≠ 10 ∧ b ≠ 13) r
+
+/-- a line feed or a carriage return at index `i` -/
+def NLat (s : Bytes) (i : Nat) : Prop := s[i]? = some 10 ∨ s[i]? = some 13
 
 theorem mem_take_of_getElem? {s : Bytes} {i m : Nat} {b : UInt8} (h : s[i]? = some b) (hm : i < m) : b ∈ s.take m := by
   rw [List.mem_iff_getElem?]
@@ -28,14 +31,33 @@ theorem getElem?_lt {s : Bytes} {i : Nat} {b : UInt8} (h : s[i]? = some b) : i <
   · exact hl
   · rw [List.getElem?_eq_none (by omega)] at h; cases h
 
-/-- a line feed in `s` stops every match: the longest match in `s ++ y` is the one in `s` -/
-theorem longest_stable (r : Re) (hr : NlFree r) (s y : Bytes) (i : Nat) (hi : s[i]? = some 10) :
+theorem NLat.lt {s : Bytes} {i : Nat} (h : NLat s i) : i < s.length := by
+  rcases h with h | h <;> exact getElem?_lt h
+
+theorem NLat.ne_nil {s : Bytes} {i : Nat} (h : NLat s i) : s ≠ [] := by
+  intro h0; subst h0; rcases h with h | h <;> simp at h
+
+/-- no word of a line-terminator-free language reaches over a line terminator -/
+theorem NLat.kill {r : Re} (hr : NlFree r) {s : Bytes} {i m : Nat} (h : NLat s i) (hm : i < m) :
+    ¬ Matches r (s.take m) := by
+  intro hmat
+  rcases h with h | h
+  · exact (Params.matches_all hmat hr 10 (mem_take_of_getElem? h hm)).1 rfl
+  · exact (Params.matches_all hmat hr 13 (mem_take_of_getElem? h hm)).2 rfl
+
+theorem NLat.append {s : Bytes} {i : Nat} (h : NLat s i) (y : Bytes) : NLat (s ++ y) i := by
+  have hl := h.lt
+  rcases h with h | h
+  · left; rw [List.getElem?_append_left hl]; exact h
+  · right; rw [List.getElem?_append_left hl]; exact h
+
+/-- a line terminator in `s` stops every match: the longest match in `s ++ y` is the one in `s` -/
+theorem longest_stable (r : Re) (hr : NlFree r) (s y : Bytes) (i : Nat) (hi : NLat s i) :
     r.longest (s ++ y) = r.longest s := by
-  have hil := getElem?_lt hi
-  have hi' : (s ++ y)[i]? = some 10 := by rw [List.getElem?_append_left hil]; exact hi
+  have hil := hi.lt
   have kill : ∀ m, s.length < m → ¬ Matches r ((s ++ y).take m) := by
-    intro m hm hmat
-    exact Params.matches_all hmat hr 10 (mem_take_of_getElem? hi' (by omega)) rfl
+    intro m hm
+    exact NLat.kill hr (hi.append y) (by omega)
   cases h : r.longest s with
   | some n =>
     rw [Regex.longest_is_longest] at h ⊢
@@ -54,7 +76,7 @@ theorem longest_stable (r : Re) (hr : NlFree r) (s y : Bytes) (i : Nat) (hi : s[
 
 /-- every character class of the expression excludes the line feed -/
 macro "nlfree" : tactic =>
-  `(tactic| (repeat' apply And.intro) <;> first | trivial | (intro b h h0; subst h0; exact absurd h (by decide)))
+  `(tactic| (repeat' apply And.intro) <;> first | trivial | (intro b h; constructor <;> (intro h0; subst h0; exact absurd h (by decide))))
 
 theorem nlFree_ws : NlFree wsRe := by
   simp only [NlFree, wsRe, Re.plus, Params.reAll]; nlfree
@@ -94,17 +116,17 @@ theorem best_le (a b c : Option Nat) (L : Nat) (ha : ∀ n, a = some n → n ≤
     (hc : ∀ n, c = some n → n ≤ L) : List.foldl max 0 (List.filterMap id [a, b, c]) ≤ L := by
   cases a <;> cases b <;> cases c <;> simp at ha hb hc ⊢ <;> omega
 
-theorem specToken_header_stable (s y : Bytes) (i : Nat) (hi : s[i]? = some 10) :
+theorem specToken_header_stable (s y : Bytes) (i : Nat) (hi : NLat s i) :
     specToken .header (s ++ y) = specToken .header s := by
-  have hne := ne_nil_of_getElem? hi
-  have hl := getElem?_lt hi
+  have hne := hi.ne_nil
+  have hl := hi.lt
   have hb := best_le (headerComplete.longest s) (headerIncompleteCommon.longest s) (headerIncompleteCompound.longest s)
     s.length (fun n h => longest_le h) (fun n h => longest_le h) (fun n h => longest_le h)
   simp only [specToken, longest_stable _ nlFree_headerComplete s y i hi, longest_stable _ nlFree_headerIncC s y i hi,
     longest_stable _ nlFree_headerIncP s y i hi, head_append_of_ne s y hne]
   rw [List.getElem?_append_left (by omega)]
 
-theorem specToken_plain_stable (s y : Bytes) (i : Nat) (hi : s[i]? = some 10) :
+theorem specToken_plain_stable (s y : Bytes) (i : Nat) (hi : NLat s i) :
     specToken .ws (s ++ y) = specToken .ws s ∧ specToken .chr (s ++ y) = specToken .chr s ∧
     specToken .decimal (s ++ y) = specToken .decimal s ∧ specToken .suffix (s ++ y) = specToken .suffix s ∧
     specToken .expression (s ++ y) = specToken .expression s ∧ specToken .nondecimal (s ++ y) = specToken .nondecimal s := by
@@ -118,12 +140,12 @@ theorem specToken_plain_stable (s y : Bytes) (i : Nat) (hi : s[i]? = some 10) :
       longest_stable _ nlFree_binnum s y i hi]
 
 /-- a token of one of the line-feed-free languages ends before the line feed -/
-theorem longest_before {r : Re} (hr : NlFree r) {s : Bytes} {i n : Nat} (hi : s[i]? = some 10)
+theorem longest_before {r : Re} (hr : NlFree r) {s : Bytes} {i n : Nat} (hi : NLat s i)
     (h : r.longest s = some n) : n ≤ i := by
   obtain ⟨h1, h2, _⟩ := (Regex.longest_is_longest r s n).1 h
   apply Classical.byContradiction
   intro hn
-  exact Params.matches_all h2 hr 10 (mem_take_of_getElem? hi (by omega)) rfl
+  exact NLat.kill hr hi (by omega) h2
 
 /-! ## strings: nothing without a quote character -/
 
@@ -151,7 +173,7 @@ theorem specToken_string_none (s : Bytes) (hq : NoQuotes s) : specToken .string 
   have h39 : (39 : UInt8) ∉ s := fun h => (hq 39 h).2 rfl
   simp only [specToken, longestString_none 34 s h34, longestString_none 39 s h39]
 
-/-! ## the line terminator without CR -/
+/-! ## the line terminator -/
 
 theorem longestAux_isNone (r : Re) (h : r.isNone = true) (t : Bytes) (n : Nat) (best : Option Nat) :
     r.longestAux t n best = best := by
@@ -178,6 +200,17 @@ theorem newline_none (s : Bytes) (h10 : s.head? ≠ some 10) (h13 : s.head? ≠ 
     have e13 : b ≠ 13 := by simpa using h13
     simp [Re.longest, Re.longestAux, newline, Re.c, Re.deriv, Re.nullable, Re.isNone, e10, e13]
     exact longestAux_isNone _ (by decide) _ _ _
+
+theorem newline_crlf (t : Bytes) : newline.longest (13 :: 10 :: t) = some 2 := by
+  cases t with
+  | nil => decide
+  | cons b t =>
+    simp [Re.longest, Re.longestAux, newline, Re.c, Re.deriv, Re.nullable, Re.isNone]
+    exact longestAux_isNone _ (by decide) _ _ _
+
+theorem newline_cr (b : UInt8) (t : Bytes) (hb : b ≠ 10) : newline.longest (13 :: b :: t) = some 1 := by
+  simp [Re.longest, Re.longestAux, newline, Re.c, Re.deriv, Re.nullable, Re.isNone, hb]
+  exact longestAux_isNone _ (by decide) _ _ _
 
 /-! ## definite-length blocks -/
 
@@ -237,7 +270,7 @@ theorem noQuotes_left {s y : Bytes} (h : NoQuotes (s ++ y)) : NoQuotes s := fun 
 
 theorem noQuotes_drop {s : Bytes} (h : NoQuotes s) (n : Nat) : NoQuotes (s.drop n) := fun b hb => h b (List.mem_of_mem_drop hb)
 
-theorem plain_le {r : Re} (hr : NlFree r) {ty : TokType} {s : Bytes} {i : Nat} {e : Expect} (hi : s[i]? = some 10)
+theorem plain_le {r : Re} (hr : NlFree r) {ty : TokType} {s : Bytes} {i : Nat} {e : Expect} (hi : NLat s i)
     (h : (match r.longest s with
           | some n => if n > 0 then some (Expect.mk n ty 0 n) else none
           | none => none) = some e) : e.consumed ≤ i := by
@@ -250,12 +283,12 @@ theorem plain_le {r : Re} (hr : NlFree r) {ty : TokType} {s : Bytes} {i : Nat} {
     · cases h; exact longest_before hr hi hl
     · cases h
 
-theorem decimal_le {s : Bytes} {i : Nat} {e : Expect} (hi : s[i]? = some 10) (h : specToken .decimal s = some e) :
+theorem decimal_le {s : Bytes} {i : Nat} {e : Expect} (hi : NLat s i) (h : specToken .decimal s = some e) :
     e.consumed ≤ i := by
   simp only [specToken] at h
   exact plain_le nlFree_decimal hi h
 
-theorem wsLen_le {s : Bytes} {i : Nat} (hi : s[i]? = some 10) : wsLen s ≤ i := by
+theorem wsLen_le {s : Bytes} {i : Nat} (hi : NLat s i) : wsLen s ≤ i := by
   unfold wsLen
   cases h : specToken .ws s with
   | none => simp
@@ -265,22 +298,23 @@ theorem wsLen_le {s : Bytes} {i : Nat} (hi : s[i]? = some 10) : wsLen s ≤ i :=
     simpa using this
 
 /-- position `n ≤ i` of `s ++ y` seen from `n`: the rest of `s`, still with its line feed, then `y` -/
-theorem drop_view (s y : Bytes) (i n : Nat) (hi : s[i]? = some 10) (hn : n ≤ i) :
-    (s ++ y).drop n = s.drop n ++ y ∧ (s.drop n)[i - n]? = some 10 := by
-  have hl := getElem?_lt hi
+theorem drop_view (s y : Bytes) (i n : Nat) (hi : NLat s i) (hn : n ≤ i) :
+    (s ++ y).drop n = s.drop n ++ y ∧ NLat (s.drop n) (i - n) := by
+  have hl := hi.lt
   refine ⟨List.drop_append_of_le_length (by omega), ?_⟩
+  unfold NLat
   rw [List.getElem?_drop]
   rw [show n + (i - n) = i by omega]; exact hi
 
-theorem wsLen_stable (s y : Bytes) (i : Nat) (hi : s[i]? = some 10) : wsLen (s ++ y) = wsLen s := by
+theorem wsLen_stable (s y : Bytes) (i : Nat) (hi : NLat s i) : wsLen (s ++ y) = wsLen s := by
   unfold wsLen; rw [(specToken_plain_stable s y i hi).1]
 
-theorem specData_stable (s y : Bytes) (i : Nat) (hi : s[i]? = some 10) (hq : NoQuotes (s ++ y))
+theorem specData_stable (s y : Bytes) (i : Nat) (hi : NLat s i) (hq : NoQuotes (s ++ y))
     (hsw : specData s ≠ .swallow) : specData (s ++ y) = specData s := by
   obtain ⟨hws, hchr, hdec, hsuf, hexp, hnd⟩ := specToken_plain_stable s y i hi
   have hstr1 := specToken_string_none (s ++ y) hq
   have hstr2 := specToken_string_none s (noQuotes_left hq)
-  have hne := ne_nil_of_getElem? hi
+  have hne := hi.ne_nil
   unfold specData at hsw ⊢
   simp only [hnd, hchr, hdec, hstr1, hstr2, hexp] at hsw ⊢
   cases h1 : specToken .nondecimal s with
@@ -370,10 +404,10 @@ theorem specList_fuel : ∀ (f1 f2 : Nat) (s : Bytes) (off cnt : Nat), off ≤ s
       · rfl
       · rfl
 
-theorem specList_stable (w y : Bytes) (J : Nat) (hJ : w[J]? = some 10) (hq : NoQuotes (w ++ y)) :
+theorem specList_stable (w y : Bytes) (J : Nat) (hJ : NLat w J) (hq : NoQuotes (w ++ y)) :
     ∀ (fuel off cnt : Nat), off ≤ J → endpos (specList fuel w off cnt) ≤ J →
     specList fuel (w ++ y) off cnt = specList fuel w off cnt := by
-  have hJl := getElem?_lt hJ
+  have hJl := hJ.lt
   intro fuel
   induction fuel with
   | zero => intro off cnt _ _; rfl
@@ -408,7 +442,7 @@ theorem specList_stable (w y : Bytes) (J : Nat) (hJ : w[J]? = some 10) (hq : NoQ
       have e1 : wsLen ((w ++ y).drop (off + wsLen (w.drop off) + n)) = wsLen (w.drop (off + wsLen (w.drop off) + n)) := by
         rw [v5]; exact wsLen_stable _ y _ v6
       obtain ⟨v7, v8⟩ := drop_view w y J _ hJ hpw
-      rw [e1, v7, head_append_of_ne _ y (ne_nil_of_getElem? v8)]
+      rw [e1, v7, head_append_of_ne _ y (v8.ne_nil)]
       split
       · rename_i hc
         rw [if_pos hc] at hend
@@ -515,7 +549,9 @@ theorem uData_ge (s : Bytes) : uP1 s + uW1 s ≤ (uData s).1 := by
     have : uW1 s = 0 := by omega
     simp [this]
 
-theorem newline_stable (r y : Bytes) (hne : r ≠ []) (h13 : r.head? ≠ some 13) :
+/-- the terminator token at the start of `r` is the same when more bytes follow, unless `r` is a lone CR
+(which a following LF would extend) -/
+theorem newline_stable (r y : Bytes) (hne : r ≠ []) (hend : r ≠ [13]) :
     specToken .nl (r ++ y) = specToken .nl r := by
   cases r with
   | nil => exact absurd rfl hne
@@ -523,10 +559,18 @@ theorem newline_stable (r y : Bytes) (hne : r ≠ []) (h13 : r.head? ≠ some 13
     by_cases hb : b = 10
     · subst hb
       simp only [specToken, List.cons_append, newline_lf]
-    · have e13 : b ≠ 13 := by simpa using h13
-      simp only [specToken, List.cons_append]
-      rw [newline_none (b :: (t ++ y)) (by simpa using hb) (by simpa using e13),
-        newline_none (b :: t) (by simpa using hb) (by simpa using e13)]
+    · by_cases hc : b = 13
+      · subst hc
+        cases t with
+        | nil => exact absurd rfl hend
+        | cons b' t' =>
+          by_cases hb' : b' = 10
+          · subst hb'
+            simp only [specToken, List.cons_append, newline_crlf]
+          · simp only [specToken, List.cons_append, newline_cr _ _ hb']
+      · simp only [specToken, List.cons_append]
+        rw [newline_none (b :: (t ++ y)) (by simpa using hb) (by simpa using hc),
+          newline_none (b :: t) (by simpa using hb) (by simpa using hc)]
 
 theorem nl_consumed_pos {s : Bytes} {e : Expect} (h : specToken .nl s = some e) : 1 ≤ e.consumed := by
   simp only [specToken] at h
@@ -541,7 +585,7 @@ theorem nl_consumed_pos {s : Bytes} {e : Expect} (h : specToken .nl s = some e) 
 
 /-- a unit that ends — in a terminator or at a byte that cannot continue it — at or before a line
 feed of `w` is the same unit when more bytes follow -/
-theorem specUnit_stable (w y : Bytes) (J : Nat) (hJ : w[J]? = some 10) (hq : NoQuotes (w ++ y)) (hcr : NoCR (w ++ y))
+theorem specUnit_stable (w y : Bytes) (J : Nat) (hJ : NLat w J) (hq : NoQuotes (w ++ y)) (hlast : w.getLast? ≠ some 13)
     (hend : (specUnit w).consumed ≤ J + 1)
     (hterm : (specUnit w).term ≠ .none ∨ (specUnit w).wellFormed = false) : specUnit (w ++ y) = specUnit w := by
   have hP2 : (uData w).1 ≤ J := by
@@ -582,7 +626,7 @@ theorem specUnit_stable (w y : Bytes) (J : Nat) (hJ : w[J]? = some 10) (hq : NoQ
     rw [eW, eP]
     split
     · rename_i hw
-      have hl := getElem?_lt hJ
+      have hl := hJ.lt
       have hf : specList ((w ++ y).length + 1) w (uP1 w + uW1 w) 0 = specList (w.length + 1) w (uP1 w + uW1 w) 0 :=
         specList_fuel _ _ w _ 0 (uW1_le w) (by rw [List.length_append]; omega) (by omega)
       have hE : endpos (specList (w.length + 1) w (uP1 w + uW1 w) 0) = (uData w).1 := by
@@ -591,11 +635,12 @@ theorem specUnit_stable (w y : Bytes) (J : Nat) (hJ : w[J]? = some 10) (hq : NoQ
       rw [specList_stable w y J hJ hq _ _ 0 (by omega) (by rw [hf, hE]; exact hP2), hf]
     · rfl
   obtain ⟨v5, v6⟩ := drop_view w y J (uData w).1 hJ hP2
-  have hne := ne_nil_of_getElem? v6
-  have h13 : (w.drop (uData w).1).head? ≠ some 13 := by
+  have hne := v6.ne_nil
+  have h13 : w.drop (uData w).1 ≠ [13] := by
     intro h
-    have hm : (13 : UInt8) ∈ w.drop (uData w).1 := List.mem_of_mem_head? h
-    exact hcr 13 (List.mem_append_left _ (List.mem_of_mem_drop hm)) rfl
+    apply hlast
+    rw [← List.take_append_drop (uData w).1 w, h]
+    simp
   rw [specUnit_eq (w ++ y), specUnit_eq w, e0, eH, eD, v5, newline_stable _ y hne h13, head_append_of_ne _ y hne]
   have i1 : (w.drop (uData w).1 ++ y).isEmpty = false := by
     cases hh : w.drop (uData w).1 with
@@ -633,37 +678,55 @@ theorem key_of_spec {a b : Bytes} (h : specUnit a = specUnit b) :
       have hb := b3.2 hw
       rw [ha, hb]
 
-theorem nl_token_lf {r : Bytes} {e : Expect} (h13 : r.head? ≠ some 13) (he : specToken .nl r = some e) :
-    e.consumed = 1 ∧ r.head? = some 10 := by
-  by_cases h10 : r.head? = some 10
-  · cases r with
-    | nil => simp at h10
-    | cons b t =>
-      have hb : b = 10 := by simpa using h10
-      subst hb
+/-- a terminator token is LF, CR LF or CR: it ends in a line feed or a carriage return -/
+theorem nl_token {r : Bytes} {e : Expect} (he : specToken .nl r = some e) :
+    1 ≤ e.consumed ∧ NLat r (e.consumed - 1) := by
+  cases r with
+  | nil => simp only [specToken] at he; rw [newline_none [] (by simp) (by simp)] at he; cases he
+  | cons b t =>
+    by_cases hb : b = 10
+    · subst hb
       simp only [specToken, newline_lf] at he
       simp at he
       rw [← he]
-      exact ⟨rfl, rfl⟩
-  · simp only [specToken] at he
-    rw [newline_none r h10 h13] at he
-    cases he
+      exact ⟨Nat.le_refl _, Or.inl rfl⟩
+    · by_cases hc : b = 13
+      · subst hc
+        cases t with
+        | nil =>
+          simp only [specToken] at he
+          rw [show newline.longest [13] = some 1 by decide] at he
+          simp at he
+          rw [← he]
+          exact ⟨Nat.le_refl _, Or.inr rfl⟩
+        | cons b' t' =>
+          by_cases hb' : b' = 10
+          · subst hb'
+            simp only [specToken, newline_crlf] at he
+            simp at he
+            rw [← he]
+            exact ⟨by decide, Or.inl rfl⟩
+          · simp only [specToken, newline_cr _ _ hb'] at he
+            simp at he
+            rw [← he]
+            exact ⟨Nat.le_refl _, Or.inr rfl⟩
+      · simp only [specToken] at he
+        rw [newline_none (b :: t) (by simpa using hb) (by simpa using hc)] at he
+        cases he
 
-/-- a unit that ends in a terminator, in a stream without CR, ends in a line feed -/
-theorem nl_unit (w : Bytes) (hcr : NoCR w) (h : (detectUnit w).term = .nl) :
-    ∃ p, (detectUnit w).consumed = p + 1 ∧ w[p]? = some 10 := by
+/-- a unit that ends in a terminator ends in a line feed or a carriage return -/
+theorem nl_unit (w : Bytes) (h : (detectUnit w).term = .nl) :
+    ∃ p, (detectUnit w).consumed = p + 1 ∧ NLat w p := by
   obtain ⟨a1, a2, _⟩ := Props.C13.unit_spec w
   have ht := (term_of_code a2).1.1 h
   rw [a1]
   rw [specUnit_eq] at ht ⊢
   split at ht
   · rename_i e he
-    have h13 : (w.drop (uData w).1).head? ≠ some 13 := by
-      intro h
-      exact hcr 13 (List.mem_of_mem_drop (List.mem_of_mem_head? h)) rfl
-    obtain ⟨c1, c2⟩ := nl_token_lf h13 he
-    refine ⟨(uData w).1, by dsimp only; rw [c1], ?_⟩
-    rw [List.head?_drop] at c2
+    obtain ⟨c1, c2⟩ := nl_token he
+    refine ⟨(uData w).1 + (e.consumed - 1), by dsimp only; omega, ?_⟩
+    unfold NLat at c2 ⊢
+    rw [List.getElem?_drop] at c2
     exact c2
   · rename_i he
     split at ht
@@ -673,9 +736,9 @@ theorem nl_unit (w : Bytes) (hcr : NoCR w) (h : (detectUnit w).term = .nl) :
 theorem noCR_drop {s : Bytes} (h : NoCR s) (n : Nat) : NoCR (s.drop n) := fun b hb => h b (List.mem_of_mem_drop hb)
 theorem noCR_left {s y : Bytes} (h : NoCR (s ++ y)) : NoCR s := fun b hb => h b (List.mem_append_left _ hb)
 
-/-- the message the scan finds ends in a line feed -/
-theorem scanFrom_lf (s : Bytes) (hcr : NoCR s) : ∀ (fuel tot k f : Nat), scanFrom fuel s tot = some (k, f) →
-    0 < k ∧ s[k - 1]? = some 10 := by
+/-- the message the scan finds ends in a line feed or a carriage return -/
+theorem scanFrom_nl (s : Bytes) : ∀ (fuel tot k f : Nat), scanFrom fuel s tot = some (k, f) →
+    0 < k ∧ NLat s (k - 1) := by
   intro fuel
   induction fuel with
   | zero => intro tot k f h; simp [scanFrom] at h
@@ -685,7 +748,8 @@ theorem scanFrom_lf (s : Bytes) (hcr : NoCR s) : ∀ (fuel tot k f : Nat), scanF
     split at h
     · rename_i hnl
       simp only [Option.some.injEq, Prod.mk.injEq] at h
-      obtain ⟨p, hp1, hp2⟩ := nl_unit (s.drop tot) (noCR_drop hcr tot) (by simpa using hnl)
+      obtain ⟨p, hp1, hp2⟩ := nl_unit (s.drop tot) (by simpa using hnl)
+      unfold NLat at hp2 ⊢
       rw [List.getElem?_drop] at hp2
       refine ⟨by omega, ?_⟩
       rw [← h.1, hp1]
@@ -720,10 +784,17 @@ theorem wf_none_all (w : Bytes) (hw : (specUnit w).wellFormed = true) (ht : (spe
         omega
       · rename_i hemp; rw [if_neg hemp] at hw; cases hw
 
-theorem scanFrom_stable (s y : Bytes) (hq : NoQuotes (s ++ y)) (hcr : NoCR (s ++ y)) (k : Nat) (hk : 0 < k)
-    (hJ : s[k - 1]? = some 10) : ∀ (fuel tot f : Nat), scanFrom fuel s tot = some (k, f) →
+/-- the bytes from `tot` on end like the whole -/
+theorem getLast?_drop_ne {s : Bytes} {tot : Nat} {b : UInt8} (h : s.getLast? ≠ some b) : (s.drop tot).getLast? ≠ some b := by
+  rw [List.getLast?_drop]
+  split
+  · intro h0; cases h0
+  · exact h
+
+theorem scanFrom_stable (s y : Bytes) (hq : NoQuotes (s ++ y)) (hlast : s.getLast? ≠ some 13) (k : Nat) (hk : 0 < k)
+    (hJ : NLat s (k - 1)) : ∀ (fuel tot f : Nat), scanFrom fuel s tot = some (k, f) →
     scanFrom fuel (s ++ y) tot = some (k, f) := by
-  have hJl := getElem?_lt hJ
+  have hJl := hJ.lt
   intro fuel
   induction fuel with
   | zero => intro tot f h; simp [scanFrom] at h
@@ -733,7 +804,7 @@ theorem scanFrom_stable (s y : Bytes) (hq : NoQuotes (s ++ y)) (hcr : NoCR (s ++
     rw [scanFrom_succ] at h ⊢
     obtain ⟨v1, v2⟩ := drop_view s y (k - 1) tot hJ (by omega)
     have hq' : NoQuotes (s.drop tot ++ y) := by rw [← v1]; exact noQuotes_drop hq _
-    have hcr' : NoCR (s.drop tot ++ y) := by rw [← v1]; exact noCR_drop hcr _
+    have hcr' : (s.drop tot).getLast? ≠ some 13 := getLast?_drop_ne hlast
     obtain ⟨a1, a2, a3, _⟩ := Props.C13.unit_spec (s.drop tot)
     have hstab : (specUnit (s.drop tot)).consumed ≤ k - 1 - tot + 1 →
         ((specUnit (s.drop tot)).term ≠ .none ∨ (specUnit (s.drop tot)).wellFormed = false) →
@@ -772,10 +843,7 @@ theorem scanFrom_stable (s y : Bytes) (hq : NoQuotes (s ++ y)) (hcr : NoCR (s ++
           rw [k1, k2, k3, if_neg hnl, if_neg hstop, if_neg (by rw [List.length_append]; omega)]
           exact ih _ f h
 
-/-! ## streams without quote characters and without CR have a stable scan -/
-
-/-- neither quote characters nor CR -/
-def Clean (s : Bytes) : Prop := NoQuotes s ∧ NoCR s
+/-! ## streams with a stable scan -/
 
 theorem scan_exists {s : Bytes} {k : Nat} (fuel : Nat) (hf : s.length < fuel) (h : scan s = some k) :
     ∃ f, scanFrom fuel s 0 = some (k, f) := by
@@ -790,24 +858,63 @@ theorem scan_exists {s : Bytes} {k : Nat} (fuel : Nat) (hf : s.length < fuel) (h
     subst this
     exact ⟨f, rfl⟩
 
-theorem good_clean : Good Clean where
+/-- the message found by the scan ends in LF or CR -/
+theorem scan_last {s : Bytes} {k : Nat} (hs : scan s = some k) :
+    (s.take k).getLast? = some 10 ∨ (s.take k).getLast? = some 13 := by
+  obtain ⟨f, hf⟩ := scan_exists (s.length + 1) (by omega) hs
+  obtain ⟨h1, h2⟩ := scanFrom_nl s _ _ _ _ hf
+  have hl := h2.lt
+  rw [List.getLast?_eq_getElem?, List.length_take, List.getElem?_take]
+  rw [show min k s.length - 1 = k - 1 by omega, if_pos (by omega)]
+  exact h2
+
+/-- prefix stability of the scan: the message found in `s` is found in `s ++ y`, unless `s` ends in a CR
+(which a following LF would extend) -/
+theorem scan_stable (s y : Bytes) (k : Nat) (hq : NoQuotes (s ++ y)) (hlast : s.getLast? ≠ some 13)
+    (hs : scan s = some k) : scan (s ++ y) = some k := by
+  obtain ⟨f, hf⟩ := scan_exists ((s ++ y).length + 1) (by rw [List.length_append]; omega) hs
+  obtain ⟨h1, h2⟩ := scanFrom_nl s _ _ _ _ hf
+  have := scanFrom_stable s y hq hlast k h1 h2 _ _ _ hf
+  unfold scan
+  rw [this]
+  rfl
+
+/-- does not end in CR -/
+def NoCRLast (s : Bytes) : Prop := s.getLast? ≠ some 13
+
+/-- streams without quote characters, cut anywhere but directly after a CR -/
+theorem good_cr : Good MsgNL NoQuotes NoCRLast where
+  drop := fun s k h => noQuotes_drop h k
+  drop1 := fun s k h => getLast?_drop_ne h
+  app1 := by
+    intro p x hx h
+    unfold NoCRLast at h ⊢
+    rw [List.getLast?_append]
+    cases hh : x.getLast? with
+    | none => exact absurd (List.getLast?_eq_none_iff.1 hh) hx
+    | some b => rw [hh] at h; simpa using h
+  msg := fun s k h hs => ⟨scan_last hs, fun b hb => h b (List.mem_of_mem_take hb)⟩
+  stable := fun s y k h h1 hs => scan_stable s y k h h1 hs
+
+/-- neither quote characters nor CR -/
+def Clean (s : Bytes) : Prop := NoQuotes s ∧ NoCR s
+
+theorem noCR_last {s : Bytes} (h : NoCR s) : s.getLast? ≠ some 13 := by
+  intro h0
+  exact h 13 (List.mem_of_getLast? h0) rfl
+
+/-- streams without quote characters and without CR, cut anywhere -/
+theorem good_clean : Good MsgLF Clean (fun _ => True) where
   drop := fun s k h => ⟨noQuotes_drop h.1 k, noCR_drop h.2 k⟩
-  clean := fun s h b hb => ⟨(h.1 b hb).1, (h.1 b hb).2, h.2 b hb⟩
-  term := by
+  drop1 := fun _ _ _ => trivial
+  app1 := fun _ _ _ _ => trivial
+  msg := by
     intro s k h hs
-    obtain ⟨f, hf⟩ := scan_exists (s.length + 1) (by omega) hs
-    obtain ⟨h1, h2⟩ := scanFrom_lf s h.2 _ _ _ _ hf
-    have hl := getElem?_lt h2
-    rw [List.getLast?_eq_getElem?, List.length_take, List.getElem?_take]
-    rw [show min k s.length - 1 = k - 1 by omega, if_pos (by omega)]
-    exact h2
-  stable := by
-    intro s y k h hs
-    obtain ⟨f, hf⟩ := scan_exists ((s ++ y).length + 1) (by rw [List.length_append]; omega) hs
-    obtain ⟨h1, h2⟩ := scanFrom_lf s (noCR_left h.2) _ _ _ _ hf
-    have := scanFrom_stable s y h.1 h.2 k h1 h2 _ _ _ hf
-    unfold scan
-    rw [this]
-    rfl
+    refine ⟨?_, fun b hb => ⟨(h.1 b (List.mem_of_mem_take hb)).1, (h.1 b (List.mem_of_mem_take hb)).2,
+      h.2 b (List.mem_of_mem_take hb)⟩⟩
+    rcases scan_last hs with h1 | h1
+    · exact h1
+    · exact absurd rfl (h.2 13 (List.mem_of_mem_take (List.mem_of_getLast? h1)))
+  stable := fun s y k h _ hs => scan_stable s y k h.1 (noCR_last (noCR_left h.2)) hs
 
 end ScpiVerif.Lemmas.Chunking
